@@ -9,6 +9,8 @@ Family `run` — the evaluator model driven by the REAL front end's annotated AS
 ```
 run <hex src> pol=<a|d> plan=<s1,s2,…|->;<f1,f2,…|-> | plan=none   ast=<annotated AST line>
       -> out=<hex of Display text per printed value, comma separated | none> end=<ok | rt:<Kind>@<lo>:<hi> | panic@<file>:<line> | fuel>
+ws <anything> ast=<annotated AST line>
+      -> ws=1 | ws=0          (`Eval.WellScoped`, the decidable hypothesis of `Props/C04.lean`'s `c04_dynamic`)
 rej <hex src>                 -> rejected
 fmt <bits: 16 hex digits>     -> <hex of the Display text>          (validation of the driver's float routines)
 parse <hex text>              -> <bits> | nan | err
@@ -106,7 +108,14 @@ def answerRun (head ast : String) : String :=
 
 def answer (line : String) : String :=
   match line.splitOn " ast=" with
-  | [head, ast] => if head.startsWith "run " then answerRun head ast else "bad-request"
+  | [head, ast] =>
+    if head.startsWith "run " then answerRun head ast
+    else if head.startsWith "ws " then
+      -- the hypothesis of C04's dynamic theorem, evaluated on the real resolver's annotations
+      match AstIO.readBlock ast with
+      | some blk => if wsBlock [Binder.root] blk then "ws=1" else "ws=0"
+      | none => "bad-request"
+    else "bad-request"
   | _ =>
     match words line with
     | ["rej", _] => "rejected"
